@@ -161,16 +161,17 @@ Section Tree.
 
   (* conflict reporting: under the guards the non-quiet path chooses what the quiet path chooses *)
   Lemma level_nq_guard : forall ts n k,
-    level_uniform ts = true -> level_same_text node pmatch ts n = true ->
+    level_uniform ts = true -> forallb runtime_uniform_template ts = true ->
+    level_same_text node pmatch ts n = true ->
     nq_guard node pmatch n (locate (build_tables ts) k).
   Proof.
-    intros ts n k Hu Ht. unfold level_uniform, level_same_text in *. rewrite forallb_forall in Hu, Ht.
+    intros ts n k Hu Hrt Ht. unfold level_uniform, level_same_text in *. rewrite forallb_forall in Hu, Hrt, Ht.
     assert (Hfacts : forall e, In e (locate (build_tables ts) k) -> In (e_tmpl e) ts /\ In (e_alt e) (t_alts (e_tmpl e))).
     { intros e He. apply locate_contents in He. destruct He as [He _]. unfold entries in He.
       destruct (in_pairs_of_entry ts 0%nat 0%nat 0%N e He) as [r Hr].
       apply (pairs_facts node pmatch) in Hr. tauto. }
     split.
-    - intros e He. destruct (Hfacts e He) as [H1 H2]. split; [apply Hu; exact H1 | exact H2].
+    - intros e He. destruct (Hfacts e He) as [H1 H2]. split; [apply Hu; exact H1|]. split; [apply Hrt; exact H1 | exact H2].
     - intros e1 e2 H1 H2 Htx Hpr.
       destruct (Hfacts e1 H1) as [A1 _]. destruct (Hfacts e2 H2) as [A2 _].
       specialize (Ht _ A1). rewrite forallb_forall in Ht. specialize (Ht _ A2).
@@ -181,15 +182,17 @@ Section Tree.
   Qed.
 
   Lemma quiet_eq_nonquiet_lemma : forall s mode n only,
-    uniform_union_priorities s = true -> same_text_same_match node pmatch s n = true ->
+    uniform_union_priorities s = true -> runtime_scores_agree s = true ->
+    same_text_same_match node pmatch s n = true ->
     find_template false (compile s) mode n only = find_template true (compile s) mode n only.
   Proof.
-    intros s mode n only Hu Ht.
+    intros s mode n only Hu Hr Ht.
     assert (Hl : Forall (fun ts => level_find_q false ts mode n = level_find_q true ts mode n) (postorder s)).
     { rewrite Forall_forall. intros ts Hts. unfold level_find_q.
       apply nq_eq_quiet_list; [apply locate_sorted|].
       apply level_nq_guard.
       - exact (forallb_concat _ _ Hu ts Hts).
+      - exact (forallb_concat _ _ Hr ts Hts).
       - unfold same_text_same_match in Ht. rewrite forallb_forall in Ht. apply Ht; exact Hts. }
     destruct only.
     - rewrite (proj2 (find_template_levels_q false mode n s)), (proj2 (find_template_levels_q true mode n s)).
